@@ -20,7 +20,7 @@ func (u *uhppote) GetCardByID(deviceID, cardNumber uint32) (*types.Card, error) 
 	if reply, err := sendto[messages.GetCardByIDResponse](u, deviceID, request); err != nil {
 		return nil, err
 	} else {
-		if reply.CardNumber == 0 {
+		if reply.CardNumber == 0 || reply.CardNumber == 0xffffffff {
 			return nil, nil
 		}
 
